@@ -55,8 +55,8 @@ pub(crate) enum K {
     Opaque,
 }
 
-pub(crate) const NICKS: &[&str] = &["ann", "bob", "cat", "dan", "eve", "fay", "gus", "hal", "root", "ops", "żółw", "ünï", "a", "bobby"];
-pub(crate) const CHANS: &[&str] = &["#a", "#b", "#c", "#d", "#pre", "#sec"];
+pub(crate) const NICKS: &[&str] = &["ann", "bob", "cat", "dan", "eve", "fay", "gus", "hal", "root", "ops", "żółw", "ünï", "a", "bobby", "Ann", "BOB"];
+pub(crate) const CHANS: &[&str] = &["#a", "#b", "#c", "#d", "#pre", "#sec", "&loc", "#A"];
 
 #[derive(Clone, Debug)]
 pub(crate) struct Profile {
@@ -782,6 +782,7 @@ impl<'a> Gen<'a> {
                     Some(_) if self.r.chance(1, 2) => format!("JOIN {} wrongkey", ch),
                     None if self.r.chance(1, 10) => format!("JOIN {} somekey", ch),
                     None if self.r.chance(1, 12) => format!("JOIN {} :", ch),
+                    None if self.r.chance(1, 40) => "JOIN 0".to_string(),
                     _ => format!("JOIN {}", ch),
                 };
                 self.say(c, &line)
@@ -978,8 +979,27 @@ impl<'a> Gen<'a> {
                         _ => {}
                     }
                 }
-                // occasionally split into several groups
-                let line = if args.is_empty() { format!("MODE {} {}", ch, ms) } else { format!("MODE {} {} {}", ch, ms, args.join(" ")) };
+                // occasionally split into several groups: "+o bob -v cat" instead of "+o-v bob cat"
+                let mut line = if args.is_empty() { format!("MODE {} {}", ch, ms) } else { format!("MODE {} {} {}", ch, ms, args.join(" ")) };
+                if nletters > 1 && self.r.chance(1, 3) {
+                    let mut groups: Vec<String> = vec![];
+                    let mut ai = 0;
+                    let mut sign = '+';
+                    for chh in ms.chars() {
+                        if chh == '+' || chh == '-' {
+                            sign = chh;
+                            continue;
+                        }
+                        let takes = matches!(chh, 'q' | 'a' | 'o' | 'h' | 'v' | 'b' | 'e' | 'I') || ((chh == 'k' || chh == 'l') && sign == '+');
+                        if takes && ai < args.len() {
+                            groups.push(format!("{}{} {}", sign, chh, args[ai]));
+                            ai += 1;
+                        } else {
+                            groups.push(format!("{}{}", sign, chh));
+                        }
+                    }
+                    line = format!("MODE {} {}", ch, groups.join(" "));
+                }
                 self.say(c, &line)
             }
             K::ModeMask => {
@@ -1137,11 +1157,15 @@ impl<'a> Gen<'a> {
                 self.say(c, &format!("STATS {}", q))
             }
             K::Away => {
-                let line = if self.r.chance(1, 3) { "AWAY".to_string() } else { format!("AWAY :{}", self.text()) };
+                let line = match self.r.below(7) {
+                    0 | 1 => "AWAY".to_string(),
+                    2 => "AWAY :".to_string(),
+                    _ => format!("AWAY :{}", self.text()),
+                };
                 self.say(c, &line)
             }
             K::Ison => {
-                let n = self.r.range(1, 4);
+                let n = if self.r.chance(1, 12) { self.r.range(21, 27) } else { self.r.range(1, 4) };
                 let v: Vec<String> = (0..n).map(|_| self.pick_user()).collect();
                 self.say(c, &format!("ISON {}", v.join(" ")))
             }
@@ -1323,7 +1347,7 @@ impl<'a> Gen<'a> {
                 if !self.m.conns.get(c).map_or(false, |x| x.alive) {
                     return false;
                 }
-                let l = ["CAP LS", "CAP LS 302", "CAP LIST", "CAP REQ :multi-prefix", "CAP REQ :bogus", "CAP END", "AUTHENTICATE PLAIN", "CAP REQ :multi-prefix bogus"][self.r.below(8)];
+                let l = ["CAP LS", "CAP LS 302", "CAP LIST", "CAP REQ :multi-prefix", "CAP REQ :bogus", "CAP END", "AUTHENTICATE PLAIN", "CAP REQ :multi-prefix bogus", "PASS again", "USER again 0 * :Again", "CAP LS 301", "CAP", "PING"][self.r.below(13)];
                 self.say(c, l)
             }
         }
